@@ -389,9 +389,10 @@ def run(ctx):
         ctx.add_tlc(res, "VOTree Dim=%d MaxDepth=%d" % (dim, D))
         if res.violated or not res.ok:
             raise tlc.MachineryError("VOTree theorem fails: %s %s" % (res.violated, res.error))
-    for k, (dim, D, mn) in enumerate([(1, 5, 25), (2, 4, 41), (3, 3, 33)]):
-        num = 120 if thorough else 40
-        r, behs = tlc.simulate("VOTree", (CFG % (dim, D, mn)).replace("NEXT Next", "NEXT NextSim"), num=num, depth=14, seed=ctx.seed * 3 + k + 1, timeout=900)
+    # the last two: deep trees (levels 7-10, beyond the default maximum depth of 5): cells stay exactly dyadic at every level
+    for k, (dim, D, mn, num, depth) in enumerate([(1, 5, 25, 40, 14), (2, 4, 41, 40, 14), (3, 3, 33, 40, 14), (1, 10, 61, 16, 36), (2, 7, 61, 12, 24)]):
+        num = num * 3 if thorough else num
+        r, behs = tlc.simulate("VOTree", (CFG % (dim, D, mn)).replace("NEXT Next", "NEXT NextSim"), num=num, depth=depth, seed=ctx.seed * 3 + k + 1, timeout=900)
         ctx.add_tlc(r, "VOTree -simulate Dim=%d" % dim)
         if len(behs) < num // 2:
             raise tlc.MachineryError("VOTree simulation gave %d behaviours: %s" % (len(behs), r.error))
